@@ -357,11 +357,13 @@ pub fn search_serial(rng: &mut Rng, rounds: usize) -> Option<Cex> {
             for step in 0..10 {
                 let m = match rng.below(3) { 0 => Message::Hello(Address(3)), 1 => Message::QueryState(Address(3)), _ => Message::RequestOperation(Address(3), Operation::StartReset) };
                 let good = rng.below(2) == 0;
-                let line: Vec<u8> = if good { replies[rng.below(replies.len() as u64) as usize].clone() } else { bad_replies[2 + rng.below(3) as usize].clone() };
+                let line: Vec<u8> = if good { replies[rng.below(replies.len() as u64) as usize].clone() } else { bad_replies[1 + rng.below(4) as usize].clone() };
                 {
                     let mut p = shared.borrow_mut();
                     p.inbound.clear();
                     p.inbound.extend(line.iter().copied());
+                    // more traffic is already waiting behind the reply line: exactly one line may be consumed
+                    p.inbound.extend(b":0000030AF3\r\n".iter().copied());
                     p.written.clear();
                 }
                 let input = format!("one bus object, exchange {} {:?} answered {:?} after [{}]", step, m, String::from_utf8_lossy(&line), history);
@@ -378,6 +380,9 @@ pub fn search_serial(rng: &mut Rng, rounds: usize) -> Option<Cex> {
                     }
                 } else if r.is_ok() {
                     return Some(Cex { domain: "serial", input, expected: "Err (undecodable reply)".into(), actual: format!("{:?}", r.map_err(|e| e.to_string())) });
+                }
+                if line.ends_with(b"\n") && shared.borrow().inbound.len() != 13 {
+                    return Some(Cex { domain: "serial", input, expected: "exactly the reply line consumed (13 bytes of later traffic left on the port)".into(), actual: format!("{} bytes left", shared.borrow().inbound.len()) });
                 }
                 history.push_str(if good { "ok " } else { "bad " });
             }
